@@ -476,21 +476,37 @@ func c11Check(c *fw.Ctx, cs c11Case) {
 			return
 		}
 	}
-	if !same && pushdown && strings.Contains(cs.SQL, "LEN(y) AS x") && len(cluster.keys) > len(local.keys) {
+	if !same && pushdown && strings.Contains(cs.SQL, "LEN(y) AS x") {
 		// known finding D20, matched narrowly: the pinned goexpr dependency declares LEN one-to-one
 		// (length.WalkOneToOneParams passes its source through), so pushdownAllowed takes an outer GROUP BY on the
-		// alias x = LEN(y) for a grouping by the partition key y and pushes the query down whole; the groups then
-		// come back once per partition. Signature: same set of output groups, some of them several times.
-		cset, lset := map[string]bool{}, map[string]bool{}
-		for _, k := range cluster.keys {
-			cset[k] = true
+		// alias x = LEN(y) for a grouping by the partition key y and pushes the query down whole. Signature: the
+		// cluster rows are exactly what evaluating the whole query on each partition separately gives (every row
+		// of the cluster result is a row of some partition's own answer; without LIMIT the multisets are equal).
+		pool := map[string]int{}
+		total := 0
+		for pi := 0; pi < cs.N; pi++ {
+			pp, perr := planner.Plan(cs.SQL, env.opts(pi, cs.N))
+			if perr != nil {
+				pool = nil
+				break
+			}
+			for _, r := range c11Exec(pp).rows {
+				pool[r]++
+				total++
+			}
 		}
-		for _, k := range local.keys {
-			lset[k] = true
-		}
-		if fmt.Sprint(sortedKeys(cset)) == fmt.Sprint(sortedKeys(lset)) {
-			fail("D20-len-treated-as-one-to-one", fmt.Sprintf("cluster rows %v\nlocal rows   %v\ncluster plan:\n%s", cluster.rows, local.rows, cluster.plan))
-			return
+		if pool != nil {
+			ok := hasLimit || len(cluster.rows) == total
+			for _, r := range cluster.rows {
+				pool[r]--
+				if pool[r] < 0 {
+					ok = false
+				}
+			}
+			if ok {
+				fail("D20-len-treated-as-one-to-one", fmt.Sprintf("cluster rows %v\nlocal rows   %v\ncluster plan:\n%s", cluster.rows, local.rows, cluster.plan))
+				return
+			}
 		}
 	}
 	if !same {
